@@ -349,6 +349,14 @@ func runTeardownSuite(rep *Report, tier string, seed int64, prop string) {
 		c14EnumDuringTeardown(rep)
 		c14HookCombos(rep)
 	}
+	if prop == "C15" {
+		for _, api := range apis() {
+			c15NestedClosureTeardown(rep, prop, api)
+			for _, cause := range []string{"cancel", "transport"} {
+				c03ClosureRunningAtLinkEnd(rep, prop, api, cause)
+			}
+		}
+	}
 	// a link whose context is ALREADY cancelled when Link is called (or is cancelled while it sets up)
 	for _, api := range apis() {
 		for _, when := range []string{"before", "during"} {
@@ -395,6 +403,9 @@ func runTeardownSuite(rep *Report, tier string, seed int64, prop string) {
 						probs := o.p15
 						if prop == "C14" {
 							probs = o.p14
+						}
+						// (C15's registry theorems — Props/C15Reg.lean — are about the same model M4: its traces are validated too)
+						{
 							for _, mc := range o.models {
 								pendingModels = append(pendingModels, mc)
 								pendingCases = append(pendingCases, tc.String())
